@@ -1,5 +1,5 @@
 From LV Require Import Base.Buf Gen.Constants Gen.SockGen Sock.SockModel.
 Require Extraction.
 Require Import ExtrOcamlBasic.
-Extraction "c19_model.ml" num_anchor str_buff_inc step run cleanup dangling pick_max is_open
+Extraction "c19_model.ml" num_anchor str_buff_inc step run cleanup dangling pick_max pick_low is_open
   socket_send init_from_fd fifo_sched sv_text pair_xfer delivered.
